@@ -1,4 +1,6 @@
 import Ebu.Proofs.Shutdown
+import Ebu.Model.Inflight
+import Ebu.Generated.Consts
 import Ebu.Spec.Conc
 import Ebu.Proofs.Conc
 /-!
@@ -22,6 +24,33 @@ theorem wait_returns_only_when_idle (progs : List (List Op)) (s s' : Sys) (h : R
     (hprog : th.prog = .wait :: prog) (hstep : s.stepAt i = some s') :
     liveJobs s = 0 ∧ pendingSpawns s = 0 :=
   Ebu.Conc.wait_returns_only_when_idle progs s s' h i th prog hth hpc hfr hprog hstep
+
+/-! ### the counter behind `Wait` (M2w) and what the CURRENT source does with its condition variable -/
+
+/-- the wake-up discipline of the source, read off `inflight.done` on every run -/
+def sourceWake : Ebu.Inflight.Wake :=
+  if Ebu.Generated.Consts.inflightDoneWake == "Broadcast" then .broadcast
+  else if Ebu.Generated.Consts.inflightDoneWake == "Signal" then .signal else .none
+
+/-- OBLIGATION on the current source: `done` broadcasts when the count reaches zero and `wait` re-checks
+the count in a loop -/
+theorem source_broadcasts : sourceWake = .broadcast ∧ Ebu.Generated.Consts.inflightWaitRechecks = true := by decide
+
+/-- hence, however many goroutines are in `Wait` at once and whatever the schedule, none of them stays parked
+on the condition variable while nothing is in flight (no lost wake-up) … -/
+theorem no_waiter_left_behind (ops : List Ebu.Inflight.Op) :
+    Ebu.Inflight.NoLostWakeup (Ebu.Inflight.run sourceWake ops) := by
+  rw [source_broadcasts.1]; exact Ebu.Inflight.broadcast_no_lost_wakeup ops
+
+/-- … and a `Wait` returns only in a state with nothing in flight -/
+theorem wait_returns_only_idle (s : Ebu.Inflight.St) (op : Ebu.Inflight.Op) (g : Nat)
+    (hnew : g ∈ (Ebu.Inflight.step sourceWake s op).returned) (hold : g ∉ s.returned) : s.n = 0 :=
+  Ebu.Inflight.returns_only_when_idle sourceWake s op g hnew hold
+
+/-- the obligation is not decoration: with `Signal` two waiters and one finishing handler leave a waiter parked -/
+theorem signal_would_lose_a_waiter :
+    ¬ Ebu.Inflight.NoLostWakeup (Ebu.Inflight.run .signal [.add, .wait 1, .wait 2, .done]) :=
+  Ebu.Inflight.signal_loses_wakeup
 
 /-- Shutdown returns nil (or the store's close error) only when no asynchronous work is in
 flight, and only then – exactly once – closes the store; when it returns the context's error it
